@@ -158,6 +158,7 @@ class Facts:
     # ---- constants -------------------------------------------------------------------------
     def const_value(self, name):
         """Structured value of a named `const` item, by interpreting its initializer MIR."""
+        name = self._const_alias(name)
         if name not in self._cv:
             if name not in self.d["consts"]:
                 raise AnchorMissing("const `%s` not found" % name)
@@ -166,7 +167,17 @@ class Facts:
         return self._cv[name]
 
     def has_const(self, name):
-        return name in self.d["consts"]
+        return self._const_alias(name) in self.d["consts"]
+
+    def _const_alias(self, name):
+        """A named constant that was moved to another module (`engine::MATE_SCORE` -> `search::MATE_SCORE`,
+        re-exported): when the reference path is gone and exactly one constant of the crate has that last
+        path segment, it is that constant."""
+        if name in self.d["consts"]:
+            return name
+        base = name.rsplit("::", 1)[-1]
+        cands = [n for n in self.d["consts"] if n.rsplit("::", 1)[-1] == base and "{" not in n]
+        return cands[0] if len(cands) == 1 else name
 
     def promoted_value(self, fn, idx):
         key = "%s::{promoted#%d}" % (fn, idx)
